@@ -100,6 +100,24 @@ structure BodyRes where
   rb : RB
   col : Int
 
+/-- `if(cell->state != SKIP) { savepen; setpen(cell->pen); }` followed by the `switch`. -/
+def drawPiece (byRef copySkip : Bool) (cell : Cell) (offset cols : Int) (dst : RB) (line col : Int) : RB :=
+  dispatch byRef copySkip cell offset cols
+    (if cell.state ≠ .skip then setpen (savepen dst) (some cell.pen) else dst) line col
+
+/-- The repaired body's effect on the buffer: draw the piece and pop the pen iff one was saved. -/
+def copyPiece (byRef copySkip : Bool) (cell : Cell) (offset cols : Int) (dst : RB) (line col : Int) : RB :=
+  if cell.state ≠ .skip then restore (drawPiece byRef copySkip cell offset cols dst line col)
+  else drawPiece byRef copySkip cell offset cols dst line col
+
+/-- The length of the run from `col` on: `cell->cols` (as found) / `cell->cols - offset` (repaired). -/
+def pieceRun (capture : Bool) (cell : Cell) (lk : Look) : Int :=
+  if capture then cell.cols - lk.offset else cell.cols
+
+/-- `cols`: the run length cut at the rectangle's right edge. -/
+def pieceCols (sr : Rect) (lk : Look) (run : Int) : Int :=
+  if lk.col + run > sr.right then sr.right - lk.col else run
+
 /-- One execution of the body of the column loop.  `same`: `dst == src` (then `src` is ignored and every read
     of the source goes to the live destination). -/
 def body (v : Variant) (same copySkip : Bool) (src : RB) (sr : Rect) (lineoffs coloffs : Int) (leftwards : Bool)
@@ -107,30 +125,33 @@ def body (v : Variant) (same copySkip : Bool) (src : RB) (sr : Rect) (lineoffs c
   let S := if same then dst else src
   let lk := look S sr leftwards line col
   let cell := S.cell line lk.hcol
-  -- `int cols = cell->cols;` (as found) / `int remaining = cell->cols - offset; int cols = remaining;` (repaired)
-  let run := if v.capture then cell.cols - lk.offset else cell.cols
-  let cols := if lk.col + run > sr.right then sr.right - lk.col else run
-  let active : Bool := decide (cell.state ≠ .skip)
-  let d1 := if active then setpen (savepen dst) (some cell.pen) else dst
-  let d2 := dispatch v.byRef copySkip cell lk.offset cols d1 (line + lineoffs) (lk.col + coloffs)
-  -- `if(cell->state != SKIP) restore` reads the cell again (as found) / `if(active)` (repaired)
-  let cellAfter := if same then d2.cell line lk.hcol else cell
-  let pop : Bool := if v.capture then active else decide (cellAfter.state ≠ .skip)
-  let d3 := if pop then restore d2 else d2
-  -- `col += cell->cols` reads the cell again (as found) / `col += remaining` (repaired)
-  let cellEnd := if same then d3.cell line lk.hcol else cell
-  let next := if leftwards then lk.col - 1 else lk.col + (if v.capture then run else cellEnd.cols)
-  { rb := d3, col := next }
+  let run := pieceRun v.capture cell lk
+  let cols := pieceCols sr lk run
+  if v.capture then
+    -- repaired: `active` and `remaining` were captured before the dispatch
+    { rb := copyPiece v.byRef copySkip cell lk.offset cols dst (line + lineoffs) (lk.col + coloffs)
+      col := if leftwards then lk.col - 1 else lk.col + run }
+  else
+    let d2 := drawPiece v.byRef copySkip cell lk.offset cols dst (line + lineoffs) (lk.col + coloffs)
+    -- as found: `if(cell->state != SKIP) restore` and `col += cell->cols` read the cell again
+    let cellAfter := if same then d2.cell line lk.hcol else cell
+    let d3 := if cellAfter.state ≠ .skip then restore d2 else d2
+    let cellEnd := if same then d3.cell line lk.hcol else cell
+    { rb := d3, col := if leftwards then lk.col - 1 else lk.col + cellEnd.cols }
+
+/-- The condition of the column loop: `leftwards ? col >= srcrect->left : col < right`. -/
+def more (leftwards : Bool) (sr : Rect) (col : Int) : Bool :=
+  if leftwards then decide (col ≥ sr.left) else decide (col < sr.right)
 
 /-- The column loop of one line. -/
 def colLoop (v : Variant) (same copySkip : Bool) (src : RB) (sr : Rect) (lineoffs coloffs : Int) (leftwards : Bool)
     (line : Int) : Nat → RB → Int → RB
-  | 0, dst, col =>
-    if (if leftwards then col ≥ sr.left else col < sr.right) then { dst with fuelOut := true } else dst
+  | 0, dst, col => if more leftwards sr col then { dst with fuelOut := true } else dst
   | fuel + 1, dst, col =>
-    if (if leftwards then col ≥ sr.left else col < sr.right) then
-      let r := body v same copySkip src sr lineoffs coloffs leftwards line dst col
-      colLoop v same copySkip src sr lineoffs coloffs leftwards line fuel r.rb r.col
+    if more leftwards sr col then
+      colLoop v same copySkip src sr lineoffs coloffs leftwards line fuel
+        (body v same copySkip src sr lineoffs coloffs leftwards line dst col).rb
+        (body v same copySkip src sr lineoffs coloffs leftwards line dst col).col
     else dst
 
 /-- Fuel of the column loop: with the repaired text every iteration advances by at least one column; the text
